@@ -163,10 +163,16 @@ ROWS = ("0.1,100,60", "0.2,--undefined--,61", "0.3,120,--undefined--", "0.4,--un
 
 
 def _check_listing(case):
-    hdr, rows, uv = case
+    hdr, rows, uv = case[:3]
+    blanks = case[3] if len(case) > 3 else ()  # positions (in the list of lines) at which an empty line is inserted
     fn = os.path.join(scratch_dir(), "c20-listing.txt")
+    lines = (["time,pitch,intensity"] if hdr else []) + list(rows)
+    for pos in sorted(blanks, reverse=True):
+        lines.insert(pos, "")
     with open(fn, "w") as fd:
-        fd.write(("time,pitch,intensity\n" if hdr else "") + "\n".join(rows) + "\n")
+        fd.write("\n".join(lines) + "\n")
+    if blanks:
+        hdr = f"{hdr} with empty lines at {blanks}"
     st, r, _ = call(pi.loadTimeSeriesData, fn, uv)
     if st == "exc":
         return 1, "X", None, [Viol("loadTimeSeriesData-raised", f"rows {rows} header={hdr} undefinedValue={uv}: {r!r}")]
@@ -243,6 +249,15 @@ def parts(tier):
                         continue
                     for uv in (None, 0, -1.5):
                         yield (hdr, rows, uv)
+        # empty lines (which the loader ignores) before, between and after the header and the rows
+        for hdr in (True, False):
+            for k in (1, 2):
+                nlines = k + int(hdr)
+                for rows in itertools.product(ROWS[:3], repeat=k):
+                    for nb in (1, 2):
+                        for blanks in itertools.combinations_with_replacement(range(nlines + 1), nb):
+                            for uv in (None, 0):
+                                yield (hdr, rows, uv, blanks)
 
     return [
         InputPart("medianFilter", gen_median, _check_median,
@@ -258,5 +273,6 @@ def parts(tier):
                   rule="all series over {50,75.5,100,140,200} of length 0-4 x thresholds %s (exact ties at the threshold: either answer); marking "
                        "a textgrid" % (THRS,), bounds={}),
         InputPart("loadTimeSeriesData", gen_listing, _check_listing,
-                  rule="all listings of 1-3 rows from 5 row kinds (undefined markers in any column) x header x undefinedValue {None,0,-1.5}", bounds={}),
+                  rule="all listings of 1-3 rows from 5 row kinds (undefined markers in any column) x header x undefinedValue {None,0,-1.5}; "
+                       "1-2 rows x header x one or two empty lines at every position (before the header, between, after)", bounds={}),
     ]
